@@ -46,10 +46,12 @@ class World:
         self.trace = []
         # initial states (reached through the public API)
         self.dc.append(self.data[0])
-        if initial >= 1:
+        if initial == 3:
+            self.new_group()                    # a single dataset carrying one group
+        elif initial >= 1:
             self.dc.append(self.data[1])
             self.new_group()
-        if initial >= 2:
+        if initial == 2:
             self.new_group()
             self.dc.remove(self.data[1])
 
